@@ -43,7 +43,10 @@ def jobs(tier):
     combos2 = [([(0, 0), (1, 0)], [(1, 0), (0, 0)], dict(padding=None, rdil=1, ldil=None, flags=[True, True])),
                ([(1, 0), (0, 1)], [(0, 1), (1, 1)], dict(padding="SAME", rdil=2, ldil=None, flags=[True, False])),
                ([(1, 1)], [(1, 0), (0, 0)], dict(padding="explicit", rdil=1, ldil=2, flags=[False, False])),
-               ([(0, 0)], [(2, 0), (1, 1)], dict(padding="TORUS", rdil=1, ldil=None, flags=[False, True]))]
+               ([(0, 0)], [(2, 0), (1, 1)], dict(padding="TORUS", rdil=1, ldil=None, flags=[False, True])),
+               # image dilation together with the implicit paddings ('SAME' by name, and None on a non-toroidal image)
+               ([(0, 0), (1, 0)], [(0, 0), (1, 1)], dict(padding="SAME", rdil=1, ldil=2, flags=[False, False])),
+               ([(0, 1)], [(1, 0), (0, 1)], dict(padding=None, rdil=2, ldil=2, flags=[False, False]))]
     if not q:
         combos2 += [([(2, 0)], [(0, 0), (1, 0)], dict(padding=None, rdil=1, ldil=None, flags=[True, True])),
                     ([(0, 1), (1, 0)], [(1, 1), (0, 0)], dict(padding="VALID", rdil=2, ldil=None, flags=[True, True]))]
